@@ -55,7 +55,7 @@ violation_file() { # $1 = class, $2 = text file with details
 # harness module through a build overlay (nothing is written into /verif/harness).
 OVERLAY=""
 case "$ID" in
-  C01|C03|C04|C05|C06|C10)
+  C01|C03|C04|C05|C06|C10|C14)
     if ! (cd "$VERIF_REPO/tars/tools/tars2go" && GOFLAGS=-mod=mod go build -o "$BUILD/tars2go" .) 2>"$BUILD/t2g-build.log"; then
       cat "$BUILD/t2g-build.log" >&2; echo "BUILD-FAILED property=$ID (tars2go)" >&2; exit 3
     fi
